@@ -267,10 +267,10 @@ class CachedShapeAmplitudeModel(BaseAmplitudeModel):
         used_chains_idx = [
             i for i in old_chains_idx if i not in cached_shape_idx
         ]
-        self.decay_group.set_used_chains(used_chains_idx)
-        pv = build_params_vector(self.decay_group, data)
+        with self.decay_group.keep_used_chains():
+            self.decay_group.set_used_chains(used_chains_idx)
+            pv = build_params_vector(self.decay_group, data)
         partial_cached_data = [cached_data[i] for i in used_chains_idx]
-        self.decay_group.set_used_chains(old_chains_idx)
         ret = []
 
         for idx, (i, j) in enumerate(zip(pv, partial_cached_data)):
